@@ -277,4 +277,5 @@ func runC09(e *Engine, r *Report) {
 	ruleTanFileInUse(e, r)
 	ruleLastBatchCache(e, r)
 	ruleLogReaderRebase(e, r)
+	ruleTanIndexAllNodes(e, r)
 }
